@@ -45,16 +45,17 @@ func (sc *c30Scope) access(e ast.Expr) (c30Access, bool) {
 // enter builds the scope of a declared module function called at `call` in sc (nil if the callee is
 // not a source function of the module, e.g. an interface method or a function value).
 func (sc *c30Scope) enter(call *ast.CallExpr) *c30Scope {
-	obj, _ := sc.F.P.ResolveCallee(sc.F.Info(), call)
-	fn, ok := obj.(*types.Func)
-	if !ok {
-		return nil
-	}
-	g := sc.F.P.FuncOf(fn)
+	g, closure := c30CalleeInfo(sc.F, call)
 	if g == nil || g == sc.F {
 		return nil
 	}
 	sub := &c30Scope{F: g, Bind: map[*types.Var]c30Access{}}
+	if closure {
+		// a function literal sees the variables of its enclosing function: they keep their meaning
+		for v, acc := range sc.Bind {
+			sub.Bind[v] = acc
+		}
+	}
 	for i, a := range call.Args {
 		if pv := g.Param(i); pv != nil {
 			if acc, ok := sc.access(a); ok {
@@ -82,12 +83,22 @@ func (sc *c30Scope) enter(call *ast.CallExpr) *c30Scope {
 // So `if a > max || b > max { refuse }`, `if exceeds(a, b) { refuse }` and `if !fits(a, b) { refuse }`
 // are the same guard.
 func c30Implies(sc *c30Scope, ft core.Fact, want core.LinCmp, name func(c30Access) string, depth int) bool {
-	namer := func(e ast.Expr) string {
-		if acc, ok := sc.access(e); ok {
+	return c30ImpliesN(sc, ft, want, func(s *c30Scope, e ast.Expr) string {
+		if acc, ok := s.access(e); ok {
 			return name(acc)
 		}
 		return ""
-	}
+	}, depth)
+}
+
+// c30Namer names an atom (field load, parameter, call) of a comparison written in the function of
+// scope sc by its role ("" = no role).
+type c30Namer func(sc *c30Scope, e ast.Expr) string
+
+// c30ImpliesN is c30Implies with a namer that sees the expression itself (so that calls such as
+// c.Len() can have a role too).
+func c30ImpliesN(sc *c30Scope, ft core.Fact, want core.LinCmp, atom c30Namer, depth int) bool {
+	namer := func(e ast.Expr) string { return atom(sc, e) }
 	if lc, ok := core.NormLinCmp(sc.F.Info(), ft, namer); ok && lc.Equal(want) {
 		return true
 	}
@@ -139,13 +150,13 @@ func c30Implies(sc *c30Scope, ft core.Fact, want core.LinCmp, name func(c30Acces
 		}
 		established := false
 		for _, sf := range core.Decompose(res, truth) {
-			if c30Implies(sub, sf, want, name, depth-1) {
+			if c30ImpliesN(sub, sf, want, atom, depth-1) {
 				established = true
 				break
 			}
 		}
 		if !established {
-			established, _ = g.GuardedBy(rp, func(x core.Fact) bool { return c30Implies(sub, x, want, name, depth-1) })
+			established, _ = g.GuardedBy(rp, func(x core.Fact) bool { return c30ImpliesN(sub, x, want, atom, depth-1) })
 		}
 		if !established {
 			return false
@@ -182,12 +193,7 @@ func c30MayCall(f *core.FuncInfo, e ast.Expr, depth int, names ...string) bool {
 		if !ok {
 			return true
 		}
-		obj, _ := f.P.ResolveCallee(f.Info(), call)
-		fn, ok := obj.(*types.Func)
-		if !ok {
-			return true
-		}
-		g := f.P.FuncOf(fn)
+		g, _ := c30CalleeInfo(f, call)
 		if g == nil || g == f {
 			return true
 		}
@@ -201,6 +207,91 @@ func c30MayCall(f *core.FuncInfo, e ast.Expr, depth int, names ...string) bool {
 		}, depth-1)
 		if len(pts) > 0 {
 			found = true
+		}
+		return true
+	})
+	return found
+}
+
+// c30CalleeInfo resolves the source function a call runs: a declared function or method of the module,
+// or a function literal (called in place, or bound once to a local variable: `check := func() bool {…}`).
+// closure says that the callee is a literal, which shares the variables of its enclosing function.
+func c30CalleeInfo(f *core.FuncInfo, call *ast.CallExpr) (g *core.FuncInfo, closure bool) {
+	if lit, ok := ast.Unparen(call.Fun).(*ast.FuncLit); ok {
+		return f.P.LitInfo(lit), true
+	}
+	obj, _ := f.P.ResolveCallee(f.Info(), call)
+	switch o := obj.(type) {
+	case *types.Func:
+		return f.P.FuncOf(o), false
+	case *types.Var:
+		if o.IsField() {
+			return nil, false
+		}
+		if lit, ok := ast.Unparen(singleDefExpr(f, o)).(*ast.FuncLit); ok {
+			return f.P.LitInfo(lit), true
+		}
+	}
+	return nil, false
+}
+
+func singleDefExpr(f *core.FuncInfo, v *types.Var) ast.Expr {
+	if d := singleDef(f, v); d != nil {
+		return d
+	}
+	return &ast.BadExpr{}
+}
+
+// c30FuncValue resolves a function-valued expression (literal, single-definition local holding a
+// literal, declared function, method value) to its source function.
+func c30FuncValue(f *core.FuncInfo, e ast.Expr) *core.FuncInfo {
+	e = ast.Unparen(e)
+	if lit, ok := e.(*ast.FuncLit); ok {
+		return f.P.LitInfo(lit)
+	}
+	switch x := e.(type) {
+	case *ast.Ident:
+		switch o := f.Info().ObjectOf(x).(type) {
+		case *types.Func:
+			return f.P.FuncOf(o)
+		case *types.Var:
+			if lit, ok := ast.Unparen(singleDefExpr(f, o)).(*ast.FuncLit); ok {
+				return f.P.LitInfo(lit)
+			}
+		}
+	case *ast.SelectorExpr:
+		if s, ok := f.Info().Selections[x]; ok {
+			if fn, ok := s.Obj().(*types.Func); ok {
+				return f.P.FuncOf(fn)
+			}
+		} else if fn, ok := f.Info().Uses[x.Sel].(*types.Func); ok {
+			return f.P.FuncOf(fn)
+		}
+	}
+	return nil
+}
+
+// c30DependsOn: does the value of expression e (written in f) depend on something pred accepts,
+// either in e itself or in the body of a module function / closure that e calls (bounded depth)?
+func c30DependsOn(f *core.FuncInfo, e ast.Node, depth int, pred func(g *core.FuncInfo, n ast.Node) bool) bool {
+	if pred(f, e) {
+		return true
+	}
+	if depth <= 0 {
+		return false
+	}
+	found := false
+	ast.Inspect(e, func(n ast.Node) bool {
+		if found {
+			return false
+		}
+		if _, ok := n.(*ast.FuncLit); ok {
+			return false
+		}
+		if call, ok := n.(*ast.CallExpr); ok {
+			if g, _ := c30CalleeInfo(f, call); g != nil && g != f && c30DependsOn(g, g.Body, depth-1, pred) {
+				found = true
+			}
 		}
 		return true
 	})
